@@ -228,7 +228,9 @@ class C02(Check):
         d = [("cat", name) for name in CATALOGUE]
         tr = self.tree_cases()
         ls = [("Ld-catalogue", d), ("La-unary", u), ("La-operator-table", a), ("La2-operator-table-inside-a-function", [c + ("@fn",) for c in u + a]),
-              ("Lb-compatibility", b), ("Lc-return-paths-depth1", c1),
+              ("Lb-compatibility", b), ("Lb2-compatibility-inside-a-function", [c + ("@fn",) for c in b]),
+              ("Lb3-re-assignment-from-a-nested-block-of-a-function", [c + ("@fnblk",) for c in b if c[1] == "reassign"]),
+              ("Lc-return-paths-depth1", c1),
               ("Le-depth2-operator-trees-typeof-vs-kind" + ("-every-11th" if tier == "quick" else ""), tr[::11] if tier == "quick" else tr)]
         c2 = [("ret2", i) for i, s in enumerate(skeletons(2)) if count_conds(s) <= 4]
         if tier == "quick":
@@ -242,6 +244,12 @@ class C02(Check):
         return {"case": list(case)}
 
     def source(self, case):
+        if case[-1] == "@fnblk":
+            # re-assignment from inside a nested block of a function, the variable being declared at the function's top level
+            _, pos, t1, t2 = case[:-1]
+            use = {"fn": "print x()\n", "fn1i": "print x(3)\n", "fn1s": "print x(\"abc\")\n"}.get(t1, "")
+            inner = decl("src", t2) + decl("x", t1) + "if true {\n\tx = src\n}\nprint typeof x\nprint x\n" + use
+            return PRELUDE + "cell = fn() {\n" + "".join("\t" + l + "\n" for l in inner.rstrip("\n").split("\n")) + "}\ncell()\n", 1
         if case[-1] == "@fn":
             # the same cell with the operand declarations and the operation inside one function body
             src, n = self.source(case[:-1])
